@@ -90,7 +90,9 @@ class Env:
         d_exp: Dict[Symbol, Boolean] = {}
         n_exps = []
         for s, e in deff[3]:
-            new_e = e.subs(d_exp)
+            # xreplace substitutes all the known symbols at once; subs() would substitute them one
+            # after the other, also inside the values it has just put in
+            new_e = e.xreplace(d_exp)
             d_exp[s] = new_e
             n_exps.append((s, new_e))
 
